@@ -10,7 +10,10 @@ Open Scope Z_scope.
     bytesSent, bytesReceived, peerAddressValidated, alarm, ptoCount, numProbesToSend *)
 Inductive opobs := Obs (mode : Z) (fired : bool) (sent rcvd : Z) (val : bool) (alarm ptoCount numProbes : Z).
 
-Inductive case := AmpCase (validated0 : bool) (pto : Z) (ops : list op) (obs : list opobs).
+(** [tail]: how the history ends — local close, then datagrams for the closed connection;
+    [tobs]: bytes written to the socket by each of these ops *)
+Inductive case := AmpCase (validated0 : bool) (pto : Z) (ops : list op) (obs : list opobs)
+                          (tail : list cop) (tobs : list Z).
 
 Definition obs_of (s : st) (o : op) (s' : st) : opobs :=
   Obs (match o with TrySend _ _ => sendMode s | _ => -1 end)
@@ -24,8 +27,17 @@ Fixpoint trace (s : st) (ops : list op) : list opobs :=
   | o :: r => let s' := step s o in obs_of s o s' :: trace s' r
   end.
 
-Definition model_obs (c : case) : list opobs :=
-  match c with AmpCase v pto ops _ => trace (init v pto) ops end.
+Fixpoint ctrace (c : cstate) (ops : list cop) : list Z :=
+  match ops with
+  | [] => []
+  | o :: r => let c' := cstep c o in (wireSent c' - wireSent c) :: ctrace c' r
+  end.
+
+Definition model_obs (c : case) : list opobs * list Z :=
+  match c with
+  | AmpCase v pto ops _ tail _ =>
+    (trace (init v pto) ops, ctrace (crun (cinit v pto) (map SphOp ops)) tail)
+  end.
 
 Definition obs_eqb (a b : opobs) : bool :=
   match a, b with
@@ -41,4 +53,6 @@ Fixpoint all2 {A} (f : A -> A -> bool) (a b : list A) : bool :=
   end.
 
 Definition check_case (c : case) : bool :=
-  match c with AmpCase _ _ _ obs => all2 obs_eqb (model_obs c) obs end.
+  match c with
+  | AmpCase _ _ _ obs _ tobs => all2 obs_eqb (fst (model_obs c)) obs && all2 Z.eqb (snd (model_obs c)) tobs
+  end.
